@@ -220,6 +220,9 @@ class L2Gen:
         x = r.random()
         safe = ["child_index", "id", "o1"] + fields_so_far + self.vars + (["count"] if getattr(self, "count_name", False) else [])
         if d <= 0 or x < 0.3:
+            if getattr(self, "big", False) and r.random() < 0.5 and not getattr(self, "in_count", False):
+                # beyond 2**53: a value that does not survive a round trip through a float
+                return ["int", r.choice([2**53 + 1, 2**53 + 3, 10**17 + 7, 2**64 + 1])]
             return ["int", r.randint(0, 12)]
         if x < 0.55:
             return ["name", r.choice(safe)]
@@ -235,13 +238,20 @@ class L2Gen:
     def count_expr(self):
         r = self.r
         x = r.random()
+        if getattr(self, "big", False):
+            # a recipe with huge literals: a count must not be able to read one (through a variable or a field)
+            return ["name", "o1"] if x < 0.5 else [r.choice(["add", "mul"]), ["name", "o1"], ["int", r.randint(0, 2)]]
         if x < 0.4:
             return ["name", "o1"]
         if x < 0.6 and self.vars:
             return ["name", r.choice(self.vars)]
         if x < 0.9:
             return [r.choice(["add", "sub", "mul"]), ["name", "o1"], ["int", r.randint(0, 2)]]
-        return self.expr(1, [])
+        self.in_count = True  # never a huge literal where it would become a row count
+        try:
+            return self.expr(1, [])
+        finally:
+            self.in_count = False
 
     def ref_name(self):
         r = self.r
@@ -326,6 +336,7 @@ class L2Gen:
         self.top_names = sorted({t for t, _ in plan} | {nk for _, nk in plan if nk})
         # the built-in `count` (= the row id) read by formulas, in a quarter of the recipes; in half of those an
         # OPTION named `count` is declared as well: an option is nearer than the row built-ins
+        self.big = r.random() < 0.06  # literals beyond 2**53 in field formulas (never reachable from a count)
         self.count_name = r.random() < 0.25
         count_option = self.count_name and r.random() < 0.5
         if count_option:
